@@ -64,7 +64,7 @@ def _judge(ctx, rows, tag, mode='property', kf='', par=14, chunk=2500, timeout=1
         p = f'{ctx.out}/{tag}.{mode}.{kf or "none"}.{i}.ndjson'
         vtlib.write_ndjson(p, flat)
         r = ctx.trace_check('Trace_HttpFraming', 'Trace_HttpFraming.cfg', p, timeout=timeout, deque=False, xmx='2g',
-                            extra_env={'MODE': mode, 'KF': kf, 'JAVA_TOOL_OPTIONS': '-Xss256m'}, tag=f'trace_{tag}_{mode}_{kf or "none"}_{i}')
+                            extra_env={'MODE': mode, 'KF': kf.split('+')[0], 'KF2': (kf.split('+') + [''])[1], 'JAVA_TOOL_OPTIONS': '-Xss256m'}, tag=f'trace_{tag}_{mode}_{kf or "none"}_{i}')
         if not r['accepted']:
             raise vtlib.InfraError(f'Trace_HttpFraming: trace not consumed to the end ({tag} chunk {i}, depth {r["depth"]}/{len(flat)}), see {r["log"]}')
         mm = {}
@@ -91,36 +91,52 @@ def _cases(rows):
 
 def _classify(ctx, mism, tag):
     """mism: list of (group, row, text) rejected in property mode.  Re-validates the rejected O/D lines in explain mode with
-    no deviation and with each single KF deviation.  Returns list of (group, row, text, kf or None)."""
+    no deviation, with each single KF deviation and (for what is still unexplained) with each pair.  A line is attributed to
+    the deviation set that reproduces it if that set is unique among the sets of its size and the empty set does not.
+    Returns list of (group, row, text, 'kf' | 'kf1+kf2' | None)."""
     cand = [(g, r, t) for g, r, t in mism if r.get('e') in ('O', 'D')]
     rest = [(g, r, t, None) for g, r, t in mism if r.get('e') not in ('O', 'D')]
     if not cand:
         return rest
-    rows = []
-    for g, r, t in cand:
-        rows += [g[0], r]
     key = lambda g, r: json.dumps([g[0], r], sort_keys=True)
-    explained = {}
-    for kf in [''] + list(KFS):
-        bad, _ = _judge(ctx, rows, f'{tag}_explain', mode='explain', kf=kf)
-        badkeys = {key(g, r) for g, r, _ in bad}
-        for g, r, t in cand:
-            if key(g, r) not in badkeys:
-                explained.setdefault(key(g, r), []).append(kf)
-    res = []
+
+    def explain(items, kfs):
+        rows = []
+        for g, r, t in items:
+            rows += [g[0], r]
+        def one(kf):
+            bad, _ = _judge(ctx, rows, f'{tag}_explain', mode='explain', kf=kf, par=3)
+            badkeys = {key(g, r) for g, r, _ in bad}
+            return kf, {key(g, r) for g, r, t in items} - badkeys
+        with ThreadPoolExecutor(max_workers=5) as ex:
+            return dict(ex.map(one, kfs))
+    singles = explain(cand, [''] + list(KFS))
+    verdict = {}
     for g, r, t in cand:
-        ks = explained.get(key(g, r), [])
-        res.append((g, r, t, ks[0] if len(ks) == 1 and ks[0] != '' else None))
-    return res + rest
+        k = key(g, r)
+        ks = [kf for kf, okset in singles.items() if k in okset]
+        verdict[k] = ks[0] if len(ks) == 1 and ks[0] != '' else None
+        if '' in ks:
+            verdict[k] = ''          # the transcription without deviations predicts this outcome: not a known deviation
+    left = [(g, r, t) for g, r, t in cand if verdict[key(g, r)] is None and not any(key(g, r) in okset for okset in singles.values())]
+    if left:
+        names = list(KFS)
+        pairs = explain(left, [f'{a}+{b}' for i, a in enumerate(names) for b in names[i + 1:]])
+        for g, r, t in left:
+            ks = [kf for kf, okset in pairs.items() if key(g, r) in okset]
+            if len(ks) == 1:
+                verdict[key(g, r)] = ks[0]
+    return [(g, r, t, verdict[key(g, r)] or None) for g, r, t in cand] + rest
 
 
 def _report(ctx, classified):
     """one VIOLATION per distinct cause (at most 5 printed); known findings are recorded with ctx.known"""
     seen = {}
     for g, r, t, kf in classified:
-        e = _open_kf(ctx, kf) if kf else None
-        if e:
-            ctx.known(e.get('id', kf), f'{KFS[kf]} (KF={kf})')
+        es = [(k, _open_kf(ctx, k)) for k in kf.split('+')] if kf else []
+        if es and all(e for k, e in es):
+            for k, e in es:
+                ctx.known(e.get('id', k), f'{KFS[k]} (KF={k})')
             continue
         cause = f'KF={kf}' if kf else t
         if cause in seen:
@@ -137,7 +153,7 @@ def _report(ctx, classified):
         elif r.get('e') == 'D' and 'a' in r:
             what += f' cuts={r["cuts"]} rs={r["rs"]} fill {r["fa"]} -> {json.dumps(r["a"])[:80]} but fill {r["fb"]} -> {json.dumps(r["b"])[:80]}'
         if kf:
-            what += f' :: reproduced by the transcription only with the deviation KF={kf} ({KFS[kf]}); not listed in known-findings.json'
+            what += f' :: reproduced by the transcription only with the deviation KF={kf} ({"; ".join(KFS[k] for k in kf.split("+"))}); not listed in known-findings.json'
         if i < 5:
             ctx.violations.append((what, rp))
             print(f'VIOLATION property={ctx.pid} replay={rp}  # {what}', flush=True)
@@ -165,10 +181,9 @@ def run(ctx):
     with ThreadPoolExecutor(max_workers=6) as ex:
         traces = dict(ex.map(part, PARTS))
     lap('harness')
-    mism, judged, cases = [], 0, 0
-    for p in PARTS:
-        mm, n = _judge(ctx, traces[p], p, par=6 if t == 'quick' else 14)
-        mism += mm; judged += n; cases += _cases(traces[p])
+    allrows = [r for p in PARTS for r in traces[p]]
+    mism, judged = _judge(ctx, allrows, 'all', par=12)
+    cases = _cases(allrows)
     lap('judged')
     # ---- results of the model checking runs
     for (m, c, w), f in zip(mcs, futs):
@@ -186,6 +201,7 @@ def run(ctx):
     # ---- classify what the reference rejects
     classified = _classify(ctx, mism, 'cls') if mism else []
     _report(ctx, classified)
+    vtlib.write_ndjson(f'{ctx.out}/rejected.ndjson', [dict(kf=kf, text=tx, m=g[0], row=r) for g, r, tx, kf in classified])
     rejected_cases = sum(r['n'] for g, r, tx, kf in classified if r.get('e') == 'O')
     ctx.traces_ok = cases - rejected_cases
     extra = {'cases_executed_on_real_code': cases, 'trace_lines_judged_by_TLC': judged,
